@@ -362,9 +362,6 @@ func codeMutexDeadlock(text string) (string, bool) {
 }
 
 func crashKind(text string) (string, string) {
-	if fr, ok := codeMutexDeadlock(text); ok {
-		return "mutex-deadlock", "a goroutine of the code under test waits for ever for a mutex in " + fr + " (its holder waits for that goroutine): the simulator made no step for 90 s"
-	}
 	// classify a dead worker by the panic message / race report, stable across runs
 	for _, l := range strings.Split(text, "\n") {
 		l = strings.TrimSpace(l)
@@ -478,14 +475,13 @@ func main() {
 				if wo.errLine != "" {
 					mu.Unlock()
 					if strings.Contains(wo.errLine, "watchdog") {
-						if _, ok := codeMutexDeadlock(wo.stderr); ok && spec.CrashIsViolation && wo.lastBegin >= 0 {
-							// the code under test deadlocked on one of its own mutexes: a verdict, not harness trouble
-							mu.Lock()
-							k, msg := crashKind(wo.stderr)
-							crashes = append(crashes, Found{Index: uint64(wo.lastBegin), Seed: tape.Derive(seed, prop, uint64(wo.lastBegin)),
-								V: []Violation{{Prop: prop, Kind: k, Detail: msg}}, Trace: tailLines(wo.stderr, 60)})
-							mu.Unlock()
-							return
+						if fr, ok := codeMutexDeadlock(wo.stderr); ok {
+							// Engine.mu (engine.lock hooks) and handle.mu (simhook.Mutex) are tracked by the kernel, which
+							// never lets a task wait inside Lock and reports a deadlock on them itself, replayably. A
+							// goroutine found inside sync.Mutex.Lock therefore waits for a mutex the simulator does not
+							// know (a new one, or a new Engine.mu section without the hook) whose holder it has parked:
+							// that says nothing about the code under test.
+							trouble("worker: %s\na goroutine of the code under test waits inside sync.Mutex.Lock (%s) for a mutex the simulator does not track: declare it as simhook.Mutex (or put the engine.lock / engine.unlocked hooks around the new section). %s\n%s", wo.errLine, fr, strings.Join(lockDiscipline(), "; "), strings.Join(tailLines(wo.stderr, 60), "\n"))
 						}
 						trouble("worker: %s\n%s", wo.errLine, strings.Join(tailLines(wo.stderr, 60), "\n"))
 					}
@@ -1031,6 +1027,44 @@ func orEmptyS(v []string) []string {
 	return v
 }
 
+// lockDiscipline lists what the kernel's mutex tracking assumes about /repo and no longer finds
+// (information for the evidence and for the watchdog message; it never changes a verdict).
+func lockDiscipline() []string {
+	repo := os.Getenv("VERIF_REPO")
+	if repo == "" {
+		repo = "/repo"
+	}
+	var out []string
+	for _, dir := range []string{"pkg/engine", "pkg/engine/uci", "pkg/search", "pkg/search/searchctl", "pkg/eval"} {
+		ents, _ := os.ReadDir(filepath.Join(repo, dir))
+		for _, e := range ents {
+			if e.IsDir() || !strings.HasSuffix(e.Name(), ".go") || strings.HasSuffix(e.Name(), "_test.go") {
+				continue
+			}
+			f := filepath.Join(dir, e.Name())
+			b, err := os.ReadFile(filepath.Join(repo, f))
+			if err != nil {
+				continue
+			}
+			lines := strings.Split(string(b), "\n")
+			for i, l := range lines {
+				t := strings.TrimSpace(l)
+				if strings.Contains(t, "sync.Mutex") || strings.Contains(t, "sync.RWMutex") {
+					if !(f == "pkg/engine/engine.go" && strings.HasPrefix(t, "mu ")) {
+						out = append(out, fmt.Sprintf("%s:%d declares a mutex the simulator does not track (%s)", f, i+1, t))
+					}
+				}
+				if f == "pkg/engine/engine.go" && strings.HasSuffix(t, "e.mu.Lock()") {
+					if i == 0 || strings.TrimSpace(lines[i-1]) != `simhook.Yield("engine.lock")` {
+						out = append(out, fmt.Sprintf("%s:%d takes Engine.mu without the engine.lock hook in front", f, i+1))
+					}
+				}
+			}
+		}
+	}
+	return out
+}
+
 // wiringDrift: the four main() functions cannot be imported, so verif/sim/sa/engines.go repeats their
 // engine wiring. This lists the fragments of that wiring that are no longer found in cmd/*/main.go
 // (information for the reader of the evidence; it never changes a verdict).
@@ -1045,7 +1079,7 @@ func wiringDrift() []string {
 	if repo == "" {
 		repo = "/repo"
 	}
-	drift := []string{}
+	drift := append([]string{}, lockDiscipline()...)
 	var files []string
 	for f := range want {
 		files = append(files, f)
